@@ -46,6 +46,8 @@ Partners == <<"Diag", "BlockDiag", "Dense", "Tri", "ConstDiag", "Kron">>
 Calls(cls, b) ==
   { <<"first", f, v>> : f \in {"add", "sub"}, v \in {1, 2, 3} }                 \* operand: 1 tensor same shape, 2 tensor broadcasting, 3 dense operator
   \cup { <<"first", f, v>> : f \in {"mul", "div"}, v \in {1, 2} }               \* 1 python scalar, 2 zero-dim tensor
+  \* elementwise product with a matrix: 3 same shape, 4 N x N without the operator's batch dimensions, 5 a 1 x N row (broadcasting)
+  \cup { <<"first", "mul", v>> : v \in {3, 4, 5} } \cup { <<"second", f, 3>> : f \in {"torch.mul", "Tensor.mul"} }
   \cup { <<"first", "matmul", v>> : v \in {1, 2, 3} }                           \* 1 matrix, 2 vector, 3 batched matrix
   \* torch.matmul(Op, other Op) and the reverse order, the other operator taken from classes with their own matmul branches
   \cup { <<"first", "matmul_op", v>> : v \in 1..Len(Partners) } \cup { <<"first", "op_matmul", v>> : v \in 1..Len(Partners) }
@@ -90,6 +92,7 @@ MatT == G_Int(<<N, 2>>, desc.seed + 45)
 VecT == G_Int(<<N>>, desc.seed + 47)
 BMatT == G_Int(desc.b \o <<N, 2>>, desc.seed + 49)
 LMatT == G_Int(<<2, N>>, desc.seed + 51)
+RowT == G_Int(<<1, N>>, desc.seed + 53)
 None == [shape |-> <<>>, data |-> <<0>>]
 
 \* [operand, expected]: expected = exact dense result, or [relational |-> TRUE] when judged against `dense` by relation
@@ -97,6 +100,7 @@ Eval(c) ==
   LET k == c[1] f == c[2] v == c[3] A == dense R == [relational |-> TRUE] IN
   CASE k = "first" /\ f = "add" -> LET X == IF v = 2 THEN BcT ELSE SameT IN [arg |-> X, expect |-> T_Add(A, X)]
     [] k = "first" /\ f = "sub" -> LET X == IF v = 2 THEN BcT ELSE SameT IN [arg |-> X, expect |-> T_Sub(A, X)]
+    [] k = "first" /\ f = "mul" /\ v >= 3 -> LET X == IF v = 3 THEN SameT ELSE IF v = 4 THEN BcT ELSE RowT IN [arg |-> X, expect |-> T_Mul(A, X)]
     [] k = "first" /\ f = "mul" -> [arg |-> T_Scalar(-2), expect |-> T_Scale(A, -2)]
     [] k = "first" /\ f = "div" -> [arg |-> T_Scalar(4), expect |-> [shape |-> A.shape, data |-> A.data, den |-> 4]]
     [] k = "first" /\ f = "matmul" -> LET X == IF v = 1 THEN MatT ELSE IF v = 2 THEN VecT ELSE BMatT IN [arg |-> X, expect |-> T_MatMulAny(A, X)]
@@ -104,6 +108,7 @@ Eval(c) ==
     [] k = "first" /\ f = "op_matmul" -> [arg |-> None, argterm |-> PartnerTerm(v), expect |-> T_MatMulAny(Op_Denote(PartnerTerm(v)), A)]
     [] k = "second" /\ f \in {"torch.add", "Tensor.add"} -> LET X == IF v = 2 THEN BcT ELSE SameT IN [arg |-> X, expect |-> T_Add(X, A)]
     [] k = "second" /\ f \in {"torch.sub", "Tensor.sub"} -> LET X == IF v = 2 THEN BcT ELSE SameT IN [arg |-> X, expect |-> T_Sub(X, A)]
+    [] k = "second" /\ f \in {"torch.mul", "Tensor.mul"} /\ v = 3 -> [arg |-> BcT, expect |-> T_Mul(BcT, A)]
     [] k = "second" /\ f \in {"torch.mul", "Tensor.mul"} -> [arg |-> T_Scalar(3), expect |-> T_Scale(A, 3)]
     [] k = "second" /\ f \in {"torch.matmul", "Tensor.matmul"} -> LET X == IF v = 1 THEN LMatT ELSE VecT IN [arg |-> X, expect |-> T_MatMulAny(X, A)]
     [] f \in {"isclose", "torch.isclose"} -> [arg |-> [shape |-> A.shape, data |-> [i \in 1..Len(A.data) |-> 4 * A.data[i] + 1], den |-> 4],
